@@ -286,6 +286,15 @@ func init() {
 			for j := 0; j <= jmax; j++ {
 				r = append(r, inst(p, "VerifC18ADTS", itoa(j)))
 			}
+			// long junk up to the end of the 188-byte search window: no 0xff in it, or exactly one
+			for _, jq := range [][2]int{{60, 30}, {100, -1}, {186, 185}, {187, -1}, {187, 0}, {187, 186}} {
+				r = append(r, inst(p, "VerifC18ADTSLongJunk", itoa(jq[0]), itoa(jq[1])))
+			}
+			if tier == "thorough" {
+				for _, jq := range [][2]int{{186, -1}, {186, 0}, {187, 185}, {150, 149}, {187, 100}} {
+					r = append(r, inst(p, "VerifC18ADTSLongJunk", itoa(jq[0]), itoa(jq[1])))
+				}
+			}
 			return r
 		},
 		Bounds: func(tier string) map[string]interface{} { return map[string]interface{}{} },
@@ -862,6 +871,8 @@ func init() {
 		add(spsA, 2, 256+512+2048, 1, 1+2, 1+128, 1+2+256, 2)
 		add(spsA, 0, 256+512+1024+2048, 1+32, 1+32+64, 1)
 		add(spsA, 1, 8+16+8192, 1, 1+2, 2)
+		add(spsA, 3, 0, 0, 2, 4)     // 72x72, CTB 64: slice_segment_address is 2 bits
+		add(spsA, 4, 1+2, 0, 2, 2+8) // 960x544, CTB 64: 8 bits
 		add(spsB, 0, 0, 1+2, 1+2+16, 1+4+16, 2+16, 1+2+(1<<13), 1+2+(3<<13), 1+2+(6<<13))
 		add(spsB, 1, 1+2+4+256+512+1024, 2+8, 2+16+32, 1+2+(5<<13))
 		add(spsC, 0, 0, 1+2, 1+2+2048, 1+2+4096, 1+2+2048+4096, 1+2+2048+8, 1+4+16+4096)
